@@ -127,7 +127,8 @@ def _iterate_matching_pairs(
         n: t for n, t in new_schema.types.items() if isinstance(t, cls)
     }  # type: Dict[str, TGraphQLType]
 
-    for name, old_type in old_types.items():
+    # By name: the order in which types were defined must not matter.
+    for name, old_type in sorted(old_types.items()):
         if is_introspection_type(old_type):
             continue
 
@@ -199,19 +200,19 @@ def _diff_root_types(old: Schema, new: Schema) -> Iterator[SchemaChange]:
 
 
 def _find_removed_types(old: Schema, new: Schema) -> Iterator[SchemaChange]:
-    for name in old.types.keys():
+    for name in sorted(old.types.keys()):
         if name not in new.types:
             yield TypeRemoved(name)
 
 
 def _find_added_types(old: Schema, new: Schema) -> Iterator[SchemaChange]:
-    for name in new.types.keys():
+    for name in sorted(new.types.keys()):
         if name not in old.types:
             yield TypeAdded(name)
 
 
 def _find_changed_types(old: Schema, new: Schema) -> Iterator[SchemaChange]:
-    for name, old_type in old.types.items():
+    for name, old_type in sorted(old.types.items()):
         try:
             new_type = new.types[name]
         except KeyError:
@@ -282,7 +283,7 @@ def _diff_enum_types(old: Schema, new: Schema) -> Iterator[SchemaChange]:
 
 
 def _diff_directives(old: Schema, new: Schema) -> Iterator[SchemaChange]:
-    for name, old_directive in old.directives.items():
+    for name, old_directive in sorted(old.directives.items()):
         if old_directive in SPECIFIED_DIRECTIVES:
             continue
 
@@ -305,7 +306,7 @@ def _diff_directives(old: Schema, new: Schema) -> Iterator[SchemaChange]:
             for d in _diff_directive_arguments(old_directive, new_directive):
                 yield d
 
-    for name, new_directive in new.directives.items():
+    for name, new_directive in sorted(new.directives.items()):
         if new_directive in SPECIFIED_DIRECTIVES:
             continue
 
